@@ -468,6 +468,25 @@ def proof_coverage(res, theorems, modules, extra_obligations=0, extra_discharged
     return problems
 
 
+def quiet():
+    """silence third-party warnings around a library call — except in the warnings-as-errors pass, where a warning
+    raised inside the library must surface as the exception it becomes"""
+    import contextlib
+    import warnings
+    if os.environ.get('VERIF_WARN_ERROR'):
+        return contextlib.nullcontext()
+    cm = warnings.catch_warnings()
+
+    class _Q(object):
+        def __enter__(self_):
+            cm.__enter__()
+            warnings.simplefilter('ignore')
+
+        def __exit__(self_, *a):
+            return cm.__exit__(*a)
+    return _Q()
+
+
 def rng_for(tag):
     return random.Random('%d/%s' % (SEED, tag))
 
